@@ -270,7 +270,7 @@ def split_trace(path):
     return behs
 
 
-def validate_traces(ctx, module, strict_cfg, mon_cfg, trace, name, timeout=900, max_drift=6, env_extra=None, max_viol=40):
+def validate_traces(ctx, module, strict_cfg, mon_cfg, trace, name, timeout=900, max_drift=6, env_extra=None, max_viol=40, collect_cfg=None):
     """step 5: TLC validates the recorded trace.  Strict conformance first; behaviours the
     strict spec cannot explain are re-judged by the monitor (the property alone).
     returns dict(validated, drift=[...], violations=[(invariant, behaviour lines, event index)])"""
@@ -286,13 +286,43 @@ def validate_traces(ctx, module, strict_cfg, mon_cfg, trace, name, timeout=900, 
         with open(tp, "w") as f:
             for i in todo:
                 f.writelines(behs[i])
-        env = {"VERIF_TRACE": tp, "VERIF_STRICT": "0"}
+        env = {"VERIF_TRACE": tp, "VERIF_STRICT": "0", "VERIF_COLLECT": "0"}
         if env_extra: env.update(env_extra)
         return tlc(ctx, d, module, mon_cfg, workers=1, timeout=timeout, env=env, dfs=True)
+    def collect_round():
+        """collecting mode of a trace module: one run evaluates the monitors at every event and prints every failing one
+        (<<line, failing monitors>>), so recorded findings that fail in many behaviours cannot crowd out anything else"""
+        d = ctx.specdir("col_%s" % name)
+        tp = os.path.join(d, "trace.ndjson")
+        with open(tp, "w") as f:
+            for b in behs:
+                f.writelines(b)
+        env = {"VERIF_TRACE": tp, "VERIF_STRICT": "0", "VERIF_COLLECT": "1"}
+        if env_extra: env.update(env_extra)
+        res = tlc(ctx, d, module, collect_cfg, workers=1, timeout=timeout, env=env, dfs=True)
+        m = re.search(r'^<<"COLLECTED", (.*)>>$', res.out, re.M)
+        if not (res.ok and m):
+            raise Infra("collecting monitor %s did not finish:\n%s" % (collect_cfg, res.out[-2500:]))
+        bad = json.loads(json.loads(m.group(1)))
+        starts, acc = [], 0
+        for b in behs:
+            starts.append(acc); acc += len(b)
+        out, seenb = [], set()
+        import bisect
+        for line, names in bad:
+            bi = bisect.bisect_right(starts, line - 1) - 1
+            if bi in seenb:
+                continue
+            seenb.add(bi)
+            out.append({"invariant": sorted(names)[0], "behaviour": bi, "event": line - starts[bi], "lines": behs[bi]})
+        return out
     # the first monitor pass runs alongside the strict passes (two single-worker TLC processes)
     import concurrent.futures
     pool = concurrent.futures.ThreadPoolExecutor(1)
-    first_mon = pool.submit(mon_round, list(range(total)), 1) if total else None
+    if collect_cfg:
+        first_mon = pool.submit(collect_round) if total else None
+    else:
+        first_mon = pool.submit(mon_round, list(range(total)), 1) if total else None
     while remaining:
         rounds += 1
         d = ctx.specdir("tr_%s_%d" % (name, rounds))
@@ -301,11 +331,13 @@ def validate_traces(ctx, module, strict_cfg, mon_cfg, trace, name, timeout=900, 
             for i in remaining:
                 f.writelines(behs[i])
         nlines = sum(len(behs[i]) for i in remaining)
-        env = {"VERIF_TRACE": tp, "VERIF_STRICT": "1"}
+        env = {"VERIF_TRACE": tp, "VERIF_STRICT": "1", "VERIF_COLLECT": "0"}
         if env_extra: env.update(env_extra)
         res = tlc(ctx, d, module, strict_cfg, workers=1, timeout=timeout, env=env, dfs=True)
         if res.ok and not res.inv_violated:
             break
+        if not res.inv_violated and re.search(r"TLC threw an unexpected exception|Error: Evaluating|was not in the domain|Attempted to|attempted to", res.out):
+            raise Infra("strict trace specification %s could not be evaluated (specification error, not drift):\n%s" % (strict_cfg, res.out[-2500:]))
         # position of the first unexplained event
         if res.inv_violated:
             lv = res.last_state_var("l")
@@ -331,6 +363,9 @@ def validate_traces(ctx, module, strict_cfg, mon_cfg, trace, name, timeout=900, 
     # monitor: the property alone, on every behaviour (cheap), one run; bisect on failure
     todo = list(range(total))
     rounds = 0
+    if collect_cfg and total:
+        viol = first_mon.result()
+        todo = []
     while todo:
         rounds += 1
         res = first_mon.result() if rounds == 1 else mon_round(todo, rounds)
